@@ -20,6 +20,10 @@ pub assume_specification<T> [<[T]>::rotate_left] (s: &mut [T], mid: usize)
     ensures final(s)@ == old(s)@.subrange(mid as int, old(s)@.len() as int) + old(s)@.subrange(0, mid as int)
 ;
 
+fn min_usize(a: usize, b: usize) -> (r: usize)
+    ensures r == (if a <= b { a } else { b }),
+{ if a <= b { a } else { b } }
+
 pub assume_specification<T> [MaybeUninit::<T>::write] (slot: &mut MaybeUninit<T>, val: T) -> (r: &mut T)
     ensures final(slot).mem_contents() == vstd::raw_ptr::MemContents::Init(val),
 ;
@@ -148,6 +152,13 @@ const fn sub_mod(x: usize, y: usize, m: usize) -> (r: usize)
     debug_assert!(y <= m);
     add_mod(x, m - y, m)
 }
+
+#[verifier::external_body]
+fn write_uninit_slice_cloned<T: Clone>(dst: &mut [MaybeUninit<T>], src: &[T])
+    requires old(dst)@.len() == src@.len()
+    ensures final(dst)@.len() == src@.len(),
+        forall|i: int| 0 <= i < src@.len() ==> (#[trigger] final(dst)@[i]).mem_contents().is_init() && cloned(src@[i], final(dst)@[i].mem_contents().value()),
+{ unimplemented!() }
 
 struct CircularBuffer<const N: usize, T> {
     size: usize,
@@ -596,6 +607,79 @@ impl<const N: usize, T> CircularBuffer<N, T> {
         unsafe { self.drop_range(drop_range) };
         self.start = add_mod(self.start, drop_len, N);
         self.size = len;
+    }
+
+    fn extend_from_slice(&mut self, other: &[T])
+        where T: Clone
+        requires old(self).wf()
+        ensures final(self).wf(),
+            final(self)@.len() == (if old(self)@.len() + other@.len() < N { old(self)@.len() + other@.len() } else { N as nat }),
+    {
+        proof { self.lemma_wf(); if N > 0 { lemma_phys(self.start, N); } }
+        if N == 0 {
+            return;
+        }
+
+        debug_assert!(self.start < N, "start out-of-bounds");
+        debug_assert!(self.size <= N, "size out-of-bounds");
+
+        if other.len() < N {
+            // All the elements of `other` fit into the buffer
+            let free_size = N - self.size;
+            let final_size = if other.len() < free_size {
+                // All the elements of `other` fit at the back of the buffer
+                self.size + other.len()
+            } else {
+                // Some of the elements of `other` need to overwrite the front of the buffer
+                self.truncate_front(N - other.len());
+                N
+            };
+
+            let (right, left) = self.slices_uninit_mut();
+
+            let write_len = min_usize(right.len(), other.len());
+            write_uninit_slice_cloned(&mut right[..write_len], &other[..write_len]);
+
+            let other = &other[write_len..];
+            debug_assert!(left.len() >= other.len());
+            let write_len = other.len();
+            write_uninit_slice_cloned(&mut left[..write_len], other);
+
+            self.size = final_size;
+        } else {
+            // `other` overwrites the whole buffer; get only the last `N` elements from `other` and
+            // overwrite
+            self.clear();
+            self.start = 0;
+
+            let other = &other[other.len() - N..];
+            debug_assert!(self.items.len() == other.len());
+            write_uninit_slice_cloned(&mut self.items, other);
+
+            self.size = N;
+        }
+    }
+
+    #[inline]
+    fn slices_uninit_mut(&mut self) -> (r: (&mut [MaybeUninit<T>], &mut [MaybeUninit<T>]))
+        requires old(self).wf()
+    {
+        if N == 0 {
+            return (&mut [][..], &mut [][..]);
+        }
+
+        debug_assert!(self.start < N, "start out-of-bounds");
+        debug_assert!(self.size <= N, "size out-of-bounds");
+
+        let start = self.start;
+        let end = add_mod(start, self.size, N);
+        if end < start {
+            (&mut self.items[end..start], &mut [][..])
+        } else {
+            let (left, right) = self.items.split_at_mut(end);
+            let left = &mut left[..start];
+            (right, left)
+        }
     }
 }
 
